@@ -648,6 +648,12 @@ def gen_desc(seed, idx):
                 events.append({'t': round(tu + rng.choice([1.0, 7.0, 40.0]), 3), 'ev': 'register', 'node': fd['label'], 'bbmd': b['label'], 'ttl': ttl})
         elif u < 0.45:
             events.append({'t': round(t0 + rng.choice([0.7, ttl * 0.5, ttl * 1.3]) + rng.random(), 3), 'ev': 'delete_fdt', 'bbmd': b['label'], 'fd': fd['label']})
+        elif u < 0.6 and fault_mode != 'crash':
+            # register() again while registered: another time-to-live with the same BBMD (takes effect at once)
+            ttl2 = rng.choice([x for x in [2, 5, 10, 30, 60, 120, 300] if x != ttl])
+            tr = round(t0 + rng.choice([0.6, ttl * 0.4, ttl * 1.2, ttl * 2.1]) + rng.random(), 3)
+            events.append({'t': tr, 'ev': 'register', 'node': fd['label'], 'bbmd': b['label'], 'ttl': ttl2})
+            horizon = min(1100.0, max(horizon, tr + 2.3 * ttl2 + GRACE + 10))
         elif u < 0.6 and fault_mode == 'crash':
             events.append({'t': round(t0 + rng.choice([0.7, ttl * 0.5, ttl * 1.3]) + rng.random(), 3), 'ev': 'crash', 'node': fd['label']})
     if fault_mode == 'drop-reg':
